@@ -57,8 +57,9 @@ var leanField = map[string]string{
 
 // receivers whose fields become plain parameters (no Lean record for them)
 var flatten = map[string][][2]string{
-	"liveFilter":   {{"currentTick", "uint64"}, {"gap", "uint64"}},
-	"regionFilter": {{"region", "string"}},
+	"liveFilter":           {{"currentTick", "uint64"}, {"gap", "uint64"}},
+	"regionFilter":         {{"region", "string"}},
+	"dragonboat.ShardInfo": {{"ConfigChangeIndex", "uint64"}, {"Pending", "bool"}},
 }
 
 // source-text rewrites for selectors that are not struct fields of the model
@@ -69,9 +70,10 @@ var rewrite = map[string]string{
 
 // extra field types of foreign structs (protobuf messages), for typeOf
 var foreignFields = map[string]map[string]string{
-	"pb.KV":              {"InstanceId": "uint64", "OldInstanceId": "uint64", "Finalized": "bool", "Tick": "uint64"},
-	"pb.ShardInfo":       {"ConfigChangeIndex": "uint64", "ReplicaId": "uint64"},
-	"pb.NodeHostRequest": {"Join": "bool", "Restore": "bool"},
+	"pb.KV":                {"InstanceId": "uint64", "OldInstanceId": "uint64", "Finalized": "bool", "Tick": "uint64"},
+	"pb.ShardInfo":         {"ConfigChangeIndex": "uint64", "ReplicaId": "uint64"},
+	"pb.NodeHostRequest":   {"Join": "bool", "Restore": "bool"},
+	"dragonboat.ShardInfo": {"ConfigChangeIndex": "uint64", "Pending": "bool"},
 }
 
 type gen struct {
@@ -421,9 +423,12 @@ func genPred(repo string) (string, []string) {
 		{recv: "DB", name: "applyKVUpdate", lean: "kv_holder_ok", marker: "OldInstanceId", locals: [][2]string{{"oldRec", "pb.KV"}, {"kv", "pb.KV"}}},
 		{recv: "shard", name: "killRequestRequired", lean: "kill_version_guard", marker: "ConfigChangeIndex", locals: [][2]string{{"c", "shard"}, {"ci", "pb.ShardInfo"}}},
 		{recv: "", name: "isLaunchRequests", lean: "is_launch_request", marker: "Request_CREATE", locals: [][2]string{{"r", "pb.NodeHostRequest"}}},
+		// client/nodehost.go: when the agent leaves the membership details out of its report
+		{recv: "DrummerClient", name: "SendNodeHostInfo", lean: "agent_incomplete", marker: "ConfigChangeIndex", locals: [][2]string{{"ok", "bool"}, {"cci", "uint64"}, {"v", "dragonboat.ShardInfo"}}},
 	}
 	g := &gen{fset: token.NewFileSet(), structs: map[string]map[string]string{}, funcs: map[string]*ast.FuncDecl{}, names: map[string]string{}}
 	g.parseDir(repo)
+	g.parseDir(filepath.Join(repo, "client"))
 	for _, t := range targets {
 		if t.marker == "" {
 			g.names[key(t)] = t.lean
@@ -449,6 +454,12 @@ func genPred(repo string) (string, []string) {
 			var params []string
 			for _, l := range t.locals {
 				en[l[0]] = l[1]
+				if fl, ok := flatten[l[1]]; ok {
+					for _, f := range fl {
+						params = append(params, fmt.Sprintf("(%s_%s : %s)", l[0], f[0], leanType[f[1]]))
+					}
+					continue
+				}
 				params = append(params, fmt.Sprintf("(%s : %s)", l[0], leanType[l[1]]))
 			}
 			fmt.Fprintf(&out, "/-- %s:%d condition in `%s`: `%s` -/\ndef %s %s : Bool :=\n  %s\n\n", filepath.Base(pos.Filename), g.fset.Position(c.Pos()).Line, key(t),
